@@ -87,6 +87,8 @@ def leave_prog(depth, style):
 
 def stress_items(tier, rnd):
     items = [(tag, prog, inp, {}) for tag, prog, inp in xgen.reentry_matrix()]
+    # bounds tests that guard an array access by short-circuit evaluation, one element past either end
+    items += [(tag, prog, inp, {}) for tag, prog, inp in xgen.guard_matrix()]
     depths = [0, 1, 2, 3, 10, 50, 150, 199]
     for d in depths:
         for nl in ([0, 1, 3, 10, 40] if tier != "quick" else [0, 2, 40]):
